@@ -8,7 +8,7 @@ from .common import call, grow_while_asking
 
 PROP = "C02"
 LEVEL = "exploration"
-CASES = {"quick": 640, "thorough": 32000}
+CASES = {"quick": 640, "thorough": 128000}
 SHARDS = {"quick": 8, "thorough": 16}
 ANCHORS = [
     "api.py:_split", "api.py:Converter.parse_curie", "api.py:Converter.standardize_prefix",
